@@ -66,9 +66,15 @@ pub fn run_case(servers: &mut Servers, f: &[&str]) -> String {
     let exp1: usize = field(f, "exp1=").map(|s| s.parse().unwrap()).unwrap_or(0);
     let exp2: usize = field(f, "exp2=").map(|s| s.parse().unwrap()).unwrap_or(0);
     while let Ok(Some(_)) = servers.server(kind).try_recv() {}
-    let mut conn = servers.connect(kind);
-    let _ = conn.write_all(&stream);
-    conn.shutdown(Shutdown::Write);
+    let conn = servers.connect(kind);
+    // the client sends from a thread of its own: a stream larger than the socket buffers is only taken by the server as
+    // fast as the application lets it
+    let mut wconn = conn.try_clone();
+    let wstream = stream.clone();
+    let wt = std::thread::spawn(move || {
+        let _ = wconn.write_all(&wstream);
+        wconn.shutdown(Shutdown::Write);
+    });
     let mut held: Vec<Request> = Vec::new();
     let mine = targets_of(&stream);
     let a1 = collect(servers, kind, exp1, &mut held, &mine);
@@ -136,6 +142,7 @@ pub fn run_case(servers: &mut Servers, f: &[&str]) -> String {
         let _ = rq.respond(Response::from_string("bye"));
     }
     conn.shutdown(Shutdown::Both);
+    let _ = wt.join();
     // leftovers that show up after the answers belong to this case, not to the next one
     let t = Instant::now();
     while t.elapsed() < Duration::from_millis(20) {
